@@ -7,8 +7,16 @@ namespace ErrModel
 
 abbrev Str := List UInt8
 
-/-- Literal helper: the UTF-8 bytes of a Lean string. -/
+/-- Literal helper: the UTF-8 bytes of a Lean string (run time only; does not
+    reduce in the kernel — use `b!"…"` for constants that proofs compute with). -/
 def lit (s : String) : Str := s.toUTF8.toList
+
+open Lean in
+/-- `b!"abc"` elaborates to the explicit byte list `[97, 98, 99]`. -/
+macro "b!" s:str : term => do
+  let bs := s.getString.toUTF8.toList
+  let elems ← bs.toArray.mapM (fun b => `(($(quote b.toNat) : UInt8)))
+  `(([ $elems,* ] : List UInt8))
 
 def colonSp : Str := [58, 32]      -- ": "
 def nl : UInt8 := 10
